@@ -2,10 +2,13 @@
 
 Kinds of case (`case['k']`):
   sh     args2sh(args) / escape_shell_args(style='sh'): the text is split by the REAL /bin/sh (and bash when
-         present, and shlex) - oracle: exactly the arguments come back;  model: args2sh + the Lean POSIX lexer
+         present, and shlex) - oracle: exactly the arguments come back;  model: the Lean POSIX lexer applied to
+         the text the IMPLEMENTATION wrote must give back the arguments (shAccepts; round 3: semantic tie)
   cmd    args2cmd(args) / escape_shell_args(style='cmd'): the text is split by an independent Python
-         transliteration of the MS C runtime parse_cmdline (3 historical variants of the "" rule)
-  esa    escape_shell_args(args, style) for style in sh / cmd / None / unknown (dispatch; ValueError)
+         transliteration of the MS C runtime parse_cmdline (3 historical variants of the "" rule); model: the
+         Lean CRT parser (3 variants) applied to the implementation's text (crtAccepts)
+  esa    escape_shell_args(args, style) for style in sh / cmd / None (dispatch by style and platform in the
+         model: styleOf); other style strings are outside the statement: run, never compared
   fmt    format_int_list(L) -> text; parse_int_list(text); int_ranges_from_int_list(text)
   parse  parse_int_list / int_ranges_from_int_list on grammar-generated (also malformed) texts - correspondence only
   compl  complement_int_list(text, range_start, range_end)
@@ -63,6 +66,7 @@ PRE_STEPS = [
     ['cmd', ['a b', None]], ['cmd', ['x\\', 5]], ['cmd', ['a b\\', '', 'c"d']], ['cmd', [None]],
     ['esa', [5], 'cmd'], ['esa', ['a b', None], 'sh'], ['esa', ['a'], 'bogus'],
     ['gz', 'text', 6], ['gunz', '00ff'], ['gunz', '1f8b0800000000000003'],
+    ['gzb', '616263616263', 6], ['gunzb', '00ff61626300'],      # successful gzip / gunzip calls (stale-stream state)
 ]
 
 
@@ -293,7 +297,7 @@ class C14(Property):
             'argument that needs quoting; cmd = an argument containing quote/backslash/blank or empty; fmt = a '
             'run of >= 2 consecutive values or a duplicate; parse = a text with a range token that parses; compl = '
             'non-empty complement; gzip = non-empty data. distinct = distinct case. ROUND 2, generated first: every '
-            'kind of call after each of 31 earlier calls that raise midway (floats / None / junk) or whose returned '
+            'kind of call after each of 33 earlier calls that raise midway (floats / None / junk), succeed (gzip / gunzip) or whose returned '
             'list the caller modifies, run on a freshly executed module (hermetic, self-contained replay); arguments as '
             'tuple / one-shot iterator / set, bools and 2**64-sized ints; escape_shell_args with sys.platform = win32 / '
             'darwin; 16 (delim, range_delim) pairs (one-character pairs in the model, multi-character ones oracle '
@@ -306,6 +310,8 @@ class C14(Property):
         'args2sh output is read by a POSIX shell in argument position of a simple command (so `=` is inert)',
         'args2cmd output is read by the MS C runtime rules for arguments after argv[0]',
         'escape_shell_args(style=None): sys.platform is a parameter of the model (win32 or not); the check sets sys.platform for the duration of the call',
+        "the statement constrains how the quoting text is read back, not the text: any text the reference lexer reads as exactly the arguments is correct (exact equality with the model's text is a diagnostic only); style strings other than 'sh' / 'cmd' / falsy are outside the statement",
+        'error behaviour of the integer-list readers on malformed texts is compared by exception class only (the statement is silent there)',
         'integer lists hold non-negative ints (bools count as 0/1); delimiters are one-character strings in the model, '
         'the theorems ask for DelimOK (delim != range_delim, neither an ASCII digit nor a blank); multi-character '
         'delimiters are covered by the oracle only',
@@ -319,7 +325,9 @@ class C14(Property):
         'parse_cmdline used as independent reference for args2cmd and to validate the Lean crtSplit',
         'zlib/gzip for the gzip clause (tested, not modelled)',
     ]
-    CORRESPONDENCE_NAME = 'C14.Driver (args2sh/args2cmd/int-list model + reference lexers) vs boltons.strutils'
+    CORRESPONDENCE_NAME = ('C14.Driver vs boltons.strutils: quoting functions = the Lean reference lexers must read the '
+                           "implementation's own text back as the arguments (shAccepts / crtAccepts); integer-list "
+                           'functions = exact text / list / exception class against the model')
 
     def __init__(self, tier, seed):
         super().__init__(tier, seed)
@@ -926,6 +934,10 @@ class C14(Property):
                     strutils.gzip_bytes(st[1], st[2])
                 elif fn == 'gunz':
                     strutils.gunzip_bytes(bytes.fromhex(st[1]))
+                elif fn == 'gzb':
+                    strutils.gzip_bytes(bytes.fromhex(st[1]), st[2])
+                elif fn == 'gunzb':
+                    strutils.gunzip_bytes(_gzip.compress(bytes.fromhex(st[1])))
             except CaseTimeout:
                 raise
             except Exception:
